@@ -184,7 +184,7 @@ def mk_ub(io, prompt):
 def call_lines(ub, call):
     """the command lines a call is expected to send (computed with the machine's own escape())"""
     kind = call[0]
-    if kind in ("exec", "exec0"):
+    if kind in ("exec", "exec0", "test"):
         return [ub.escape(*call[1]).encode("utf-8"), b"echo $?"]
     if kind == "env":
         lines = []
@@ -229,6 +229,8 @@ def run_calls(case):
                         results.append([0, rc, out])
                     elif kind == "exec0":
                         results.append([0, ub.exec0(*call[1])])
+                    elif kind == "test":
+                        results.append([0, 1 if ub.test(*call[1]) else 0])
                     else:
                         results.append([0, ub.env(call[1], call[2])])
                 except tbot.error.CommandFailure:
@@ -255,6 +257,8 @@ def call_coq(call, stages):
         k = f"UExec {strs(call[1])}"
     elif kind == "exec0":
         k = f"UExec0 {strs(call[1])}"
+    elif kind == "test":
+        k = f"UTest {strs(call[1])}"
     else:
         v = "None" if call[2] is None else f"(Some {sc.codepoints(call[2])})"
         k = f"UEnv {sc.codepoints(call[1])} {v}"
@@ -292,13 +296,16 @@ class ExecSuite(Suite):
                 sent += bytes.fromhex(line_hex) + b"\r"
             first = info[0]
             out_txt = sc.py_text(bytes.fromhex(first[1]))
-            if kind in ("exec", "exec0"):
+            if kind in ("exec", "exec0", "test"):
                 want_argv = [a.encode("utf-8").hex() for a in call[1]]
                 if first[3] != want_argv:
                     fails.append(f"hush received argv {first[3]} for arguments {call[1]!r}")
                 if kind == "exec":
                     if res != [0, first[2], out_txt]:
                         fails.append(f"exec{tuple(call[1])!r} returned {res!r}, console gave status {first[2]} output {out_txt!r}")
+                elif kind == "test":
+                    if res != [0, 1 if first[2] == 0 else 0]:
+                        fails.append(f"test{tuple(call[1])!r} returned {res!r}, console gave status {first[2]}")
                 else:
                     want = [0, out_txt] if first[2] == 0 else [1]
                     if res != want:
@@ -343,7 +350,7 @@ class ExecSuite(Suite):
                 k = rng.random()
                 if k < 0.45:
                     args = [rng.choice(["run", "run", "echo", "crc32", "bogus"])] + [rand_arg(rng) for _ in range(rng.randint(0, 3))]
-                    calls.append([rng.choice(["exec", "exec", "exec0"]), args])
+                    calls.append([rng.choice(["exec", "exec", "exec0", "test"]), args])
                     if args[0] in ("run", "crc32"):
                         plan.append([rand_status(rng), rand_output(rng, prompt, crc=(args[0] == "crc32")).hex()])
                 elif k < 0.8:
